@@ -187,7 +187,8 @@ def configs(tier, seed):
         base = [c for c in mod.configs(tier, seed) if c["mode"] == "min"]
         step = 4 if tier == "quick" else 2
         for i, c in enumerate(base):
-            if i % step != (seed % step):
+            # (failure events are part of the schedules: every synchronous configuration with a failure budget is kept)
+            if i % step != (seed % step) and not (src == "c05" and c.get("F", 0) >= 1 and not c.get("dehb")):
                 continue
             if src == "c04" and c["type"] == "pasha" and c["brackets"] > 1:
                 continue
